@@ -988,7 +988,8 @@ class TransformingWaveform(Waveform):
             self._cached_data.update(outer_data)
 
         if output_array is None:
-            output_array = self._cached_data[channel]
+            # hand out a copy: callers (ArithmeticWaveform, FunctorWaveform) write into the returned array in place
+            output_array = np.array(self._cached_data[channel], dtype=float)
         else:
             output_array[:] = self._cached_data[channel]
 
